@@ -18,12 +18,21 @@ let dec = function
      | _ -> ());
     if alloc > 64 * len + 4 * 1048576 then
       r := Propfail ("decoder.alloc.bundle", Printf.sprintf "%d bytes allocated for %d input bytes" alloc len) :: !r;
-    let m = dec_bundle (s_n now) bytes in
-    (match res, m with
-     | ("ok" | "ok-adminerr"), None -> r := Mismatch "implementation accepts, model rejects" :: !r
-     | "err", Some _ -> r := Mismatch "model accepts, implementation rejects" :: !r
-     | _ -> ());
-    if !r = [] then [Ok_ [kind; res]] else !r
+    let now = s_n now in
+    let m = dec_bundle now bytes in
+    (* the child decodes later than [now] was read: a verdict that changes within +-2 minutes of
+       [now] depends on the expiry instant and is not compared (guard band, DESIGN.md section 7) *)
+    let later = dec_bundle (N.add now (n_of_int 120000)) bytes in
+    let earlier = dec_bundle (N.sub now (n_of_int 120000)) bytes in
+    let stable = ((m = None) = (later = None)) && ((m = None) = (earlier = None)) in
+    let tag = ref res in
+    if stable then
+      (match res, m with
+       | ("ok" | "ok-adminerr"), None -> r := Mismatch "implementation accepts, model rejects" :: !r
+       | "err", Some _ -> r := Mismatch "model accepts, implementation rejects" :: !r
+       | _ -> ())
+    else tag := "near-expiry-skipped";
+    if !r = [] then [Ok_ [kind; !tag]] else !r
   | _ -> raise (Bad "dec case")
 
 let () = register "C04bundle" "dec" dec
